@@ -13,5 +13,4 @@ def run(ctx):
                         "ScanParse.tla transcribes the parsers' cursor machines (one action per loop iteration); its predictions are exact for every input, but only disagreements on well-formed input are violations (on malformed input: model drift)"]
 
 def replay(ctx, rp):
-    vlib.log("replay: the file holds the concrete input; re-run ./check C07")
-    return 2
+    return vlib.replay_any(ctx, rp)
